@@ -155,7 +155,12 @@ impl Report {
         let build = Command::new("cargo")
             .current_dir(&fuzz_dir)
             .env("CARGO_NET_OFFLINE", "true")
-            .args(["+nightly", "fuzz", "build", "--release", "--fuzz-dir", ".", "--features", c.feature, c.target])
+            // coverage feedback only from the code under test and the harness crates (sancov-wrapper.sh),
+            // no AddressSanitizer (the oracles are semantic; the code under test is safe Rust), own target dir
+            .env("RUSTC_WRAPPER", fuzz_dir.join("sancov-wrapper.sh"))
+            .args(["+nightly", "fuzz", "build", "--release", "--sanitizer", "none", "--fuzz-dir", ".", "--target-dir"])
+            .arg(fuzz_dir.join("target-sec"))
+            .args(["--features", c.feature, c.target])
             .output();
         match build {
             Ok(o) if o.status.success() => {}
@@ -171,7 +176,7 @@ impl Report {
                 return;
             }
         }
-        let bin = std::fs::read_dir(fuzz_dir.join("target"))
+        let bin = std::fs::read_dir(fuzz_dir.join("target-sec"))
             .ok()
             .into_iter()
             .flatten()
@@ -179,7 +184,7 @@ impl Report {
             .map(|e| e.path().join("release").join(c.target))
             .find(|p| p.is_file());
         let Some(bin) = bin else {
-            self.inconclusive.push(format!("{section}: built fuzz binary not found under {}/target", fuzz_dir.display()));
+            self.inconclusive.push(format!("{section}: built fuzz binary not found under {}/target-sec", fuzz_dir.display()));
             return;
         };
         let build_s = t0.elapsed().as_secs_f64();
